@@ -69,7 +69,7 @@ PROFILE = gf.make_profile(
            "assign_scalar": 4, "if": 4, "if1": 4, "where": 2, "select": 1,
            "call": 2, "dowhile": 1, "exitcycle": 0},
     dep_index=20, perfect_nest=15, helpers=(0, 1), nstmts=(3, 7),
-    full_loops=35)
+    full_loops=35, neg_bounds=True)
 
 VARIANTS = ["data", "data>kernels", "kernels>data", "data"]
 CLAUSES = ("copyin", "copyout", "copy")
@@ -180,6 +180,12 @@ def node_clauses(directive):
     return out
 
 
+# Names of the array arguments of the program being checked. An array whose
+# declaration PSyclone keeps as an UnsupportedFortranType (e.g. lower bound
+# other than 1) has no ArrayType, so the program's own signature decides.
+_DECLARED_ARRAYS = set()
+
+
 def region_arrays(directive):
     """Names of all array symbols referenced in the region body."""
     from psyclone.psyir.nodes import Reference
@@ -188,7 +194,8 @@ def region_arrays(directive):
     for ref in directive.dir_body.walk(Reference):
         sym = ref.symbol
         if isinstance(sym, DataSymbol) and \
-                isinstance(sym.datatype, ArrayType):
+                (isinstance(sym.datatype, ArrayType) or
+                 sym.name.lower() in _DECLARED_ARRAYS):
             name = sym.name.lower()
             if name not in out:
                 out.append(name)
@@ -207,7 +214,8 @@ def static_first_access(nodes):
 
     def is_array(sym):
         return isinstance(sym, DataSymbol) and \
-            isinstance(sym.datatype, ArrayType)
+            (isinstance(sym.datatype, ArrayType) or
+             sym.name.lower() in _DECLARED_ARRAYS)
 
     def record(sym, kind):
         if is_array(sym):
@@ -485,6 +493,8 @@ def check(prog, src, region, variant, normalised=False):
     failure = dict(bucket, msg, facts)."""
     from psyclone.psyir.transformations import TransformationError
     psy.reset_state()
+    _DECLARED_ARRAYS.clear()
+    _DECLARED_ARRAYS.update(v.name.lower() for v in prog.args if v.dims)
     tree = psy.read(src)
     routine = psy.routine_of(tree, prog.subname)
     norm, nodes = pick_region(routine, region, normalised)
